@@ -284,6 +284,10 @@ func c06History(c *fw.Ctx, env *c06Env, base *lib.Tree, hist int, hseed int64, p
 									return
 								default:
 								}
+								// the caller may read its own slice at any time: used slot and spare slots
+								if full[0] == "" {
+									return
+								}
 								for j := 1; j < len(full); j++ {
 									if full[j] != "SENTINEL" {
 										return
